@@ -12,6 +12,7 @@ import (
 	"sync/atomic"
 
 	"github.com/pion/rtp"
+	"github.com/pion/rtp/codecs"
 )
 
 func init() { families["C07"] = runC07 }
@@ -63,6 +64,35 @@ func runC07(raw json.RawMessage, w *Writer) {
 		}
 		w.Emit(Ev{"ev": "reset", "class": c.Class, "kind": c.Kind, "start": 0, "g": 1, "k": c.K})
 		w.Emit(Ev{"ev": "random_many", "n": c.K, "max_first": max, "not_below_2_15": bad})
+		return
+	}
+	if c.Kind == "packetizer" {
+		// the sequencer as a component: a packetizer draws the numbers (possibly through other entry points than
+		// NextSequenceNumber); observed through the public API only - the packets' sequence numbers and RollOverCount
+		seq := rtp.NewFixedSequencer(uint16(c.Start))
+		pz := rtp.NewPacketizer(64, 96, 1, &codecs.G711Payloader{}, seq, 8000)
+		w.Emit(Ev{"ev": "reset", "class": c.Class, "kind": c.Kind, "start": c.Start, "g": 1, "k": c.K})
+		for i := 0; i < c.K; i++ {
+			var pkts []*rtp.Packet
+			var roc uint64
+			r, _ := guard(func() {
+				if i%5 == 4 {
+					pkts = pz.GeneratePadding(uint32(1 + i%3))
+				} else {
+					pkts = pz.Packetize(pat(1+(i*37)%200, i), 160)
+				}
+				roc = seq.RollOverCount()
+			})
+			seqs := []int{}
+			for _, p := range pkts {
+				seqs = append(seqs, int(p.SequenceNumber))
+			}
+			rocI := int(roc)
+			if roc > 1<<30 {
+				rocI = 1 << 30
+			}
+			w.Emit(Ev{"ev": "pz", "res": r, "seqs": seqs, "roc": rocI})
+		}
 		return
 	}
 	c07mu.Lock()
